@@ -445,6 +445,15 @@ fn gen_c12_two_chains(seed: u64) -> Plan {
             add(&mut b.plan, tm, Action::Mine { branch, n: 1 });
             tm += b.rng.range(2_000, 5_000);
         }
+        // in two of three rounds the first peer is away when the others follow, and a block they
+        // have not announced yet is mined right before: they must prove it themselves, starting
+        // from what they proved on the old chain (otherwise the first peer's state is copied)
+        let alone = b.rng.chance(2, 3);
+        if alone {
+            add(&mut b.plan, tm, Action::Disconnect { peer: first });
+            add(&mut b.plan, tm + 300, Action::Mine { branch, n: 1 });
+            tm += 600;
+        }
         for p in 0..b.plan.peers.len() {
             if p != first {
                 add(&mut b.plan, tm + b.rng.range(100, 6_000), Action::SwitchBranch { peer: p, branch });
